@@ -130,6 +130,13 @@ def work(item):
     case('validator.validate_data', validator.validate_data, ['complete', fresh()])
     for fmt in writers.get_writer_formats():
         case('writers.' + fmt, writers.write_formatted_basis_str, [fresh(), fmt])
+    # ... and on a dictionary without the optional top-level fields (what the readers return, what the minimal schema asks for): a writer
+    # that fills in a default must do so in its own copy; raising is fine, the argument is compared all the same
+    optional = [k for k in b if k not in ('elements', 'function_types', 'molssi_bse_schema')]
+    for fmt in writers.get_writer_formats():
+        keep = set(rng.sample(optional, rng.randrange(0, 3))) if optional else set()
+        bare = {k: v for k, v in fresh().items() if k not in optional or k in keep}
+        case('writers.' + fmt, writers.write_formatted_basis_str, [bare, fmt])
     # references
     if not isinstance(src, dict):
         try:
